@@ -97,7 +97,7 @@ def stmt(rng, ints, bools, profile="full", lhs=None):
         if k == "havoc":
             return {"op": "havoc", "x": rng.choice(W)}
         return {"op": "select", "x": rng.choice(W), "c": cst(rng, ints), "e1": unit(), "e2": unit()}
-    kinds = ["assign"] * 4 + ["arith"] * 4 + ["assume"] * 5 + ["havoc", "select"]
+    kinds = ["assign"] * 4 + ["arith"] * 4 + ["assume"] * 5 + ["havoc", "select", "select"]
     if profile != "linear":
         kinds += ["bitw"] * 2
     if bools:
@@ -124,8 +124,15 @@ def stmt(rng, ints, bools, profile="full", lhs=None):
     if k == "havoc":
         return {"op": "havoc", "x": rng.choice(W + bools)}
     if k == "select":
-        return {"op": "select", "x": rng.choice(W), "c": cst(rng, ints), "e1": le(rng, ints, maxterms=1),
-                "e2": le(rng, ints, maxterms=1)}
+        c = cst(rng, ints)
+        e1, e2 = le(rng, ints, maxterms=1), le(rng, ints, maxterms=1)
+        if c["e"]["t"] and rng.random() < 0.5:
+            # a branch value that mentions a variable the condition restricts (x := c ? k : v): the value of that branch
+            # lies where the condition is false / true, so evaluating both branches under the same guard loses values
+            v = rng.choice(c["e"]["t"])[1]
+            tgt = e2 if rng.random() < 0.6 else e1
+            tgt["t"] = [[rng.choice([1, 1, -1]), v]]
+        return {"op": "select", "x": rng.choice(W), "c": c, "e1": e1, "e2": e2}
     if k == "bassign_cst":
         return {"op": "bassign_cst", "x": rng.choice(bools), "c": cst(rng, ints)}
     if k == "bassign_var":
@@ -263,6 +270,69 @@ def history(rng, hid, nints=3, nbools=1, nregs=3, length=10, profile="c03", stmt
             else:
                 steps.append({"op": k, "r": r})
     h = {"id": hid, "vars": vars_, "nregs": nregs, "steps": steps, "stutter": stutter}
+    if params:
+        h["params"] = params
+    return h
+
+
+def twin_history(rng, hid, params=None):
+    """directed family (C16, value semantics): a value is produced (by widening, widening of a join, join, meet, narrowing or plain
+    statements), COPY-ASSIGNED onto a register that already holds another value, then the same mutators are applied to the
+    original and to the copy, and both are compared (leq steps marked "twin": the specification demands the same meaning on
+    domains with a faithful projection).  Half of the histories use the shape that lazily closed graphs are sensitive to:
+    a widening that drops a bound which is still implied by a kept difference constraint and a kept bound."""
+    ints = [1, 2, 3]
+    bools = [4]
+    vars_ = [{"n": "x", "t": "int"}, {"n": "y", "t": "int"}, {"n": "z", "t": "int"}, {"n": "b4", "t": "bool"}]
+    steps = []
+
+    def assume(r, k, t, rel="le"):
+        steps.append({"op": "stmt", "r": r, "s": {"op": "assume", "c": {"e": {"k": k, "t": t}, "r": rel}}})
+    a, b = rng.sample(ints, 2)
+    if rng.random() < 0.5:
+        # constants small enough for the implied bound a <= k1 + k2 to be visible inside the box -2..2 of the witness sets
+        k1, k2 = rng.randint(-1, 1), rng.randint(-1, 0)
+        k3 = k1 + k2 - rng.randint(1, 2)
+        for r in (1, 2):
+            assume(r, -k1, [[1, a], [-1, b]])        # a - b <= k1
+            assume(r, -k2, [[1, b]])                  # b <= k2
+            if rng.random() < 0.5:
+                assume(r, -2, [[-1, b]])              # b >= -2
+        assume(1, -k3, [[1, a]])                      # a <= k3   (tighter than the implied a <= k1 + k2)
+        if rng.random() < 0.5:
+            assume(2, -(k3 + rng.randint(1, 2)), [[1, a]])
+        prod = rng.choice(["widen", "widen", "widenjoin"])
+    else:
+        for r in (1, 2):
+            for _ in range(rng.randint(1, 3)):
+                steps.append({"op": "stmt", "r": r, "s": stmt(rng, ints, bools, "rel")})
+        prod = rng.choice(["widen", "widenjoin", "join", "meet", "narrow", "stmts"])
+    if prod == "stmts":
+        steps.append({"op": "copy", "r": 3, "a": 1})
+        steps.append({"op": "stmt", "r": 3, "s": stmt(rng, ints, bools, "rel")})
+    else:
+        steps.append({"op": prod, "r": 3, "a": 1, "b": 2})
+    steps.append({"op": "copy", "r": 1, "a": 3})      # copy-assignment over an existing value
+    for _ in range(rng.choice([1, 1, 2])):
+        m = rng.choice(["forget", "forget", "project", "stmt", "joini", "meeti", "normalize"])
+        if m == "forget":
+            d = {"op": "forget", "vs": [rng.choice([b, b, a] + ints)]}
+        elif m == "project":
+            d = {"op": "project", "vs": rng.sample(ints + bools, rng.randint(1, 3))}
+        elif m == "stmt":
+            d = {"op": "stmt", "s": stmt(rng, ints, bools, "rel")}
+        elif m in ("joini", "meeti"):
+            d = {"op": "join" if m == "joini" else "meet", "b": 2, "inplace": 1}
+        else:
+            d = {"op": "normalize"}
+        for r in (3, 1):
+            e = dict(d, r=r)
+            if "inplace" in e:
+                e["a"] = r
+            steps.append(e)
+    steps.append({"op": "leq", "r": 0, "a": 3, "b": 1, "twin": 1})
+    steps.append({"op": "leq", "r": 0, "a": 1, "b": 3, "twin": 1})
+    h = {"id": hid, "vars": vars_, "nregs": 3, "steps": steps, "stutter": 0}
     if params:
         h["params"] = params
     return h
